@@ -190,6 +190,14 @@ def run(ctx):
     fi, paths = own_method_paths(ctx, "BitsInteger", "_emitprimitivetype")
     ok = all(p.retval == ("fmt", N.const("b%s"), ("tuple", (N.selfattr("length"),))) for p in paths if p.returns) and any(p.returns for p in paths)
     ctx.ob("C19.R2", fi, ok, "BitsInteger exports b{length}", key="BitsInteger type")
+    # Bitwise switches its contents to bit context, Bytewise back to byte context: the three export closures pass bitwise=True / False on
+    for macro, flag in (("Bitwise", N.TRUE), ("Bytewise", N.FALSE)):
+        for meth, sub_m in (("_emitseq", "_compileseq"), ("_emitprimitivetype", "_compileprimitivetype"), ("_emitfulltype", "_compilefulltype")):
+            fi, paths = one(None, meth, macro)
+            want = ("call", ("attr", ("free", "subcon"), sub_m), (("param", "ksy"),), (("bitwise", flag),))
+            alt = ("call", ("attr", ("param", "subcon"), sub_m), (("param", "ksy"),), (("bitwise", flag),))
+            ok = bool(paths) and all(p.retval in (want, alt) for p in paths if p.returns)
+            ctx.ob("C19.R2", fi, ok, "%s.%s exports the wrapped construct in %s context (bitwise=%s)" % (macro, meth, "bit" if flag == N.TRUE else "byte", N.show(flag)), key="%s %s context" % (macro, meth))
     # bit-sized types (b<n>) are emitted for byte-level constructs only in a bitwise context
     nb = 0
     for f, fcls in funs:
